@@ -54,7 +54,7 @@ def judge(res, cs, cr):
             bad = ('type-string', f"Typification::ToString {ev['typestr']!r} expected {meta['type']!r}")
         elif not ev['compatible']:
             bad = ('compatible', f"CheckCompatible(value, type) false for a compatible value {sm.show(model)}")
-        elif sm.from_obs(ev['val']) != model:
+        elif sm.from_obs(ev.get('val0', ev['val'])) != model:
             res.harness_error(f"value construction mismatch {ev['val']} vs {sm.show(model)}")
             return None
         elif not ev['back_has']:
@@ -164,6 +164,19 @@ def gen_pack_cases(desc, env):
                 if n % NSH == idx:
                     cases.append(pack_case(t, v, sm.enum_spec(v, rnd)))
                 n += 1
+        if idx == 0:
+            # lazy products / power sets of a few hundred elements: packing traverses the value more than once
+            E = sm.E
+            import itertools
+            for a, b in ((17, 17), (20, 15), (18, 18), (23, 23), (16, 16), (3, 100)):
+                model = frozenset(itertools.product(range(1, a + 1), range(1, b + 1)))
+                spec = {'dec': [{'setv': list(range(1, a + 1))}, {'setv': list(range(1, b + 1))}]}
+                cases.append(pack_case(('s', ('t', (E, E))), model, spec))
+                cases.append(pack_case(('t', (('s', ('t', (E, E))), E)), (model, 1), {'t': [spec, {'v': 1}]}))
+            for k in (8, 9):
+                base = list(range(1, k + 1))
+                model = frozenset(frozenset(c) for r in range(k + 1) for c in itertools.combinations(base, r))
+                cases.append(pack_case(('s', ('s', E)), model, {'bool': {'setv': base}}))
     else:
         rnd = env.rng('rnd', idx)
         count = 250 if env.tier == 'quick' else 6000
